@@ -337,8 +337,8 @@ def run(ctx: Ctx):
                 gq = cfg_of(f_)
                 atq = Atomizer(model, f_.module, f_.cls)
                 qn = [x for x in gq.nodes if x.kind == "stmt" and (x.ast is n or n in list(x.walk()))]
-                own = bool(qn) and any(".startswith(" in fx[0] and ".ident" in fx[0] and fx[1] == "truthy" and fx[3]
-                                       for fx in must_facts(gq, atq, qn[0]))
+                from .common_node import selects_own_entries
+                own = bool(qn) and any(selects_own_entries(fx) for fx in must_facts(gq, atq, qn[0]))
                 if own:
                     continue
             if hit:
@@ -452,6 +452,13 @@ def run(ctx: Ctx):
     from .common_node import ready_check_atomic_with_send, waiter_table_synchronised
     ready_check_atomic_with_send(ctx, "C10-R6", "send_request", "route_request")
     waiter_table_synchronised(ctx, "C10-R7")
+    # "whose connection is ready": a connection that has left the ready states (DPR answered,
+    # closing) is never turned back into a ready - and therefore routable - one
+    from .common_node import ready_state_stores
+    ready_state_stores(ctx, "C10-R8")
+    # writer, readers and purge of the flat transaction tables agree on the key
+    from .common_node import transaction_table_keys
+    transaction_table_keys(ctx, "C10-R9", tables=("_app_waiting_answer",))
     ctx.cur("C10-R5")
     cons = "send_request:result"
     ctx.inst(cons)
@@ -476,6 +483,14 @@ def run(ctx: Ctx):
 
 
 def _fields(js):
+    if isinstance(js, ast.Tuple):
+        # a tuple key: same fields, written in the notation of the string form
+        out = []
+        for i, v in enumerate(js.elts):
+            if i:
+                out.append(":")
+            out.append(ast.unparse(v).split(".")[-1])
+        return out
     if not isinstance(js, ast.JoinedStr):
         return None
     out = []
